@@ -2,11 +2,15 @@
 
 package actionlint
 
-import "gopkg.in/yaml.v3"
+import (
+	"strings"
+
+	"gopkg.in/yaml.v3"
+)
 
 // C09 — jobs, steps and expressions are checked independently.
 
-var verifC09Bases = []string{"matrix", "matrix.rows", "matrix.objs", "steps", "steps.s1.outputs", "needs", "needs.j0.outputs", "github.event", "env", "inputs", "secrets", "job.services"}
+var verifC09Bases = []string{"matrix", "matrix.rows", "matrix.objs", "matrix.filtered", "steps", "steps.s1.outputs", "needs", "needs.j0.outputs", "github.event", "env", "inputs", "secrets", "job.services"}
 var verifC09Segs = []string{"", ".x", ".*", "[0]", "['x']", ".rows"}
 
 func verifC09Expr(tag string, depth int) string {
@@ -29,6 +33,8 @@ func verifC09Workflow(e1, e2 string) (*yaml.Node, *yaml.Node, *yaml.Node) {
 			s("x"), ySeq(yTagged("!!int", "1")),
 			s("rows"), ySeq(ySeq(yMap(s("x"), yMap(s("y"), yTagged("!!int", "1")))), ySeq(yMap(s("x"), yMap(s("y"), yTagged("!!int", "2"))))),
 			s("objs"), ySeq(yMap(s("x"), yMap(s("y"), yTagged("!!int", "1")))),
+			// a value produced by an object filter: its type (an array made by `.*`) is stored in the matrix type
+			s("filtered"), ySeq(s("${{ fromJSON('[{\"x\":{\"y\":1}}]').* }}")),
 		)),
 		s("steps"), ySeq(
 			yMap(s("id"), s("s1"), s("run"), s("echo")),
@@ -380,4 +386,53 @@ func HarnessC09Calls() {
 		}
 	}
 	verifCheckf(ok, "job-diagnostics-depend-on-other-job", verifErrTextConc(got)+" <> "+verifErrTextConc(e1))
+}
+
+// HarnessC09OddKey: an entry whose key is the empty string or not a scalar at
+// all (a sequence used as a complex key) is reported and skipped; the entries
+// after it in the same mapping — another job, another step input, another
+// environment variable, another matrix row — are checked exactly as without it.
+func HarnessC09OddKey() {
+	s := yScalar
+	odd := func() *yaml.Node {
+		if verifChoose("key", 2) == 1 {
+			return ySeq(s("x"), s("y"))
+		}
+		return s("")
+	}
+	where := verifChoose("where", 4)
+	// the odd entry is placed in exactly one mapping: rebuild with a selector
+	build := func(withOdd bool) *yaml.Node {
+		put := func(sel int, kv []*yaml.Node, val *yaml.Node) []*yaml.Node {
+			if withOdd && where == sel {
+				return append([]*yaml.Node{odd(), val}, kv...)
+			}
+			return kv
+		}
+		victim := yMap(s("runs-on"), s("ubuntu-latest"), s("steps"), ySeq(
+			yMap(s("run"), s("echo ${{ matrix.os }}"), s("shell"), s("fish")),
+			yMap(s("uses"), s("actions/checkout@v4"), s("with"), yMap(put(1, []*yaml.Node{s("no-such-input"), s("1")}, s("v"))...)),
+			yMap(s("run"), s("echo"), s("env"), yMap(put(2, []*yaml.Node{s("A"), s("${{ unknown.x }}")}, s("v"))...)),
+		), s("strategy"), yMap(s("matrix"), yMap(put(3, []*yaml.Node{s("row"), ySeq(s("a"), s("a"))}, ySeq(s("q")))...)))
+		jobs := put(0, []*yaml.Node{s("victim"), victim}, yMap(s("runs-on"), s("ubuntu-latest"), s("steps"), ySeq(yMap(s("run"), s("echo")))))
+		return yDoc(yMap(s("on"), s("push"), s("jobs"), yMap(jobs...)))
+	}
+	kinds := func(errs []*Error) string {
+		out := ""
+		for _, e := range errs {
+			if strings.Contains(e.Message, "no-such-input") || strings.Contains(e.Message, "fish") || strings.Contains(e.Message, "unknown") || strings.Contains(e.Message, "duplicate") || strings.Contains(e.Message, "\"os\"") {
+				out += e.Kind + ";"
+			}
+		}
+		return out
+	}
+	d0 := build(false)
+	verifPlace(d0, 1, 0)
+	e0 := verifLintNode(d0, verifRules())
+	d1 := build(true)
+	verifPlace(d1, 1, 0)
+	e1 := verifLintNode(d1, verifRules())
+	verifReach("compared")
+	verifCheckf(len(kinds(e0)) > 0, "baseline-lost-its-diagnostics", verifErrTextConc(e0))
+	verifCheckf(kinds(e0) == kinds(e1), "job-diagnostics-depend-on-other-job", verifErrTextConc(e1))
 }
